@@ -11,6 +11,7 @@ from vp import probe, specmodel as sm
 from vp import defaults
 from vp import reuse
 from vp import forms as argforms
+from vp import corners
 
 RULE = ('seeded generator: nanometre spectra with 2..40 samples on uniform and non-uniform grids, integration bounds at and '
         'between samples, bin-centre sets of any spacing (trapz) or uniform (simps), both end treatments, with/without '
@@ -21,7 +22,7 @@ ASSUMPTIONS = ['unitless (valueunit None) spectra stored in m / um / nm / angstr
                'the spectrum\'s integral is that of its piecewise-linear interpolant, evaluated independently (bounds may fall between samples)',
                "Simpson's rule is exercised only with uniformly spaced centres and data, as the property scopes it"]
 PLAN = {'quick': {'gen': 8}, 'thorough': {'gen': 16, 'tests': 1, 'docs': 1}}
-REQUIRED_BUCKETS = ['defaults', 'reuse', 'forms', 'bin:density', 'bin:density:unit-differs', 'bin:spiky', 'bin:narrow-line', 'crop:outside-data', 'bin:integer-centres', 'values:small-int', 'bin:zero-spectrum', 'integrate:bright-band-below-bounds', 'wave:integer-dtype', 'unit:m', 'unit:um', 'unit:nm', 'unit:angstrom', 'bin:unit-same', 'bin:unit-differs', 'integrate:trapz', 'integrate:simps', 'bin:trapz', 'bin:simps', 'ends:symmetric', 'ends:inside',
+REQUIRED_BUCKETS = ['defaults', 'corners', 'reuse', 'forms', 'bin:density', 'bin:density:unit-differs', 'bin:spiky', 'bin:narrow-line', 'crop:outside-data', 'bin:integer-centres', 'values:small-int', 'bin:zero-spectrum', 'integrate:bright-band-below-bounds', 'wave:integer-dtype', 'unit:m', 'unit:um', 'unit:nm', 'unit:angstrom', 'bin:unit-same', 'bin:unit-differs', 'integrate:trapz', 'integrate:simps', 'bin:trapz', 'bin:simps', 'ends:symmetric', 'ends:inside',
                     'preserve:True', 'preserve:False', 'grid:nonuniform', 'op:crop', 'op:trim', 'op:pad', 'op:append', 'value:narrow-dtype', 'resample:short-narrow', 'value:signed', 'bin:narrow-float-centres', 'bin:fill-pair', 'wave:narrow-float', 'integrate:wave-narrow-float', 'integrate:wave-integer', 'integrate:extended-precision',
                     'op:resample', 'op:raised', 'history:len>=6']
 REQUIRED_ANCHORS = ['probe:Spectrum.crop', 'probe:Spectrum.trim', 'probe:Spectrum.pad', 'probe:Spectrum.append',
@@ -171,6 +172,7 @@ def workload(ctx, lentil):
     defaults.run(ctx, lentil, 'C15', 'integrate:linear')
     reuse.run(ctx, lentil, 'C15', 'integrate:linear')
     argforms.run(ctx, lentil, 'C15', 'integrate:linear')
+    corners.run(ctx, lentil, 'C15', 'integrate:linear')
     rng = ctx.rng
     S = lentil.radiometry.Spectrum
     n = ctx.count(140, 1000)
